@@ -33,6 +33,7 @@ def run(ctx):
     # the property oracle on the real implementation (always), focused runs for whatever broke
     if ok:
         _ir.trace_inclusion(ctx, meta)
+        _ir.state_replay(ctx, meta)
     _ir.monitor(ctx)
     _ir.translation_failures(ctx, errors)
     ctx.sample({'theorem': 'C01_task_histories: forall ps, Forall (fun p => c01r_check p = true) ps -> forall box f n_iter INIT x0 evs x\', restart_ok x0 -> '
